@@ -29,7 +29,7 @@ for n, (s, kind, v) in enumerate(outs):
         cn = T.cname.get(k.as_long()) if z3.is_int_value(k) else str(k)
     print(n, kind, cn, 'taint' if s.taint else '', vs[:150], 'nconds', len(s.conds))
 print('notes', sorted(set(en.notes)))
-if len(sys.argv) > 2 and sys.argv[2] not in ('obl','oblm','abs'):
+if len(sys.argv) > 2 and sys.argv[2] not in ('obl','oblm','abs','scope'):
     n = int(sys.argv[2]); s, kind, v = outs[n]
     for c_ in s.conds: print('  COND', c_.sexpr()[:600])
     v, s = en.term(v, s, escape=False) if kind == 'return' else (v, s)
@@ -108,3 +108,18 @@ if len(sys.argv) > 3 and sys.argv[2] == 'abs':
             for a in ax:
                 sx = a.sexpr()
                 if 'assoc_set' in sx and len(sx) < 1500: print('  AX', sx.replace('\n', ' ')[:700])
+if len(sys.argv) > 3 and sys.argv[2] == 'scope':
+    from pyvc import solve
+    from pyvc.values import ground_axioms, collect_apps, simp
+    import time
+    for (label, hyps, goal, taint) in en.obligations:
+        if re.search(sys.argv[3], label):
+            q = [simp(x) for x in list(hyps) + [z3.Not(goal)]]
+            q = q + ground_axioms(q)
+            lens = collect_apps(q, ('length',))
+            hints = [t <= 1 for t in lens]
+            print('hints', len(hints))
+            txt = solve.to_smt2(q + hints)
+            t = time.time(); print('race', solve.race_cli(txt, 20, wait_all=True), time.time() - t)
+            s_ = z3.Solver(); s_.set('timeout', 20000); s_.add(*(q + hints)); t = time.time(); print('z3py', s_.check(), time.time() - t)
+            break
